@@ -10,6 +10,7 @@ import (
 	"crypto/sha256"
 	"fmt"
 	"io"
+	"os"
 	"sync"
 	"testing"
 	"time"
@@ -58,6 +59,27 @@ func (l lc) GetAcceptedRoots(ctx context.Context) ([]ct.ASN1Cert, error) {
 }
 
 func builder(l *loglist3.Log) (client.AddLogClient, error) { return lc{l.URL}, nil }
+
+// noRoots is a log whose get-roots call fails: the distributor's root data stays incomplete, and chains it cannot
+// verify take the fallback path.
+type noRoots struct{ lc }
+
+func (noRoots) GetAcceptedRoots(ctx context.Context) ([]ct.ASN1Cert, error) {
+	return nil, fmt.Errorf("get-roots unavailable")
+}
+
+func builderNoRoots(l *loglist3.Log) (client.AddLogClient, error) {
+	if l.URL == "https://Other0.example/" {
+		return noRoots{lc{l.URL}}, nil
+	}
+	return lc{l.URL}, nil
+}
+
+var (
+	strayRoot  = pki.NewRoot("C17R unknown root", pki.LoadKey("p256-4"))
+	strayLeaf  = pki.NewLeaf("c17r-stray", pki.LoadKey("p256-2"), strayRoot, pki.LeafOpts{NotAfter: pki.T0.AddDate(1, 0, 0)})
+	strayChain = [][]byte{strayLeaf.DER, strayRoot.DER}
+)
 
 type refresher struct {
 	mu sync.Mutex
@@ -113,6 +135,33 @@ func TestRacePass(t *testing.T) {
 					d.RefreshRoots(ctx)
 				}
 			}()
+			// (1b) a distributor with incomplete root data: submissions of a chain under a root no log vouches for (the
+			// fallback path) x root refreshes. The statement promises that every submission terminates.
+			d2, err := submission.NewDistributor(list(2), ctpolicy.ChromeCTPolicy{}, builderNoRoots, nil)
+			if err != nil {
+				t.Fatal(err)
+			}
+			d2.RefreshRoots(ctx)
+			for c := 0; c < 2; c++ {
+				wg.Add(1)
+				go func() {
+					defer wg.Done()
+					for k := 0; k < 6; k++ {
+						sctx, scancel := context.WithTimeout(ctx, time.Second)
+						d2.AddChain(sctx, strayChain, false)
+						scancel()
+					}
+				}()
+			}
+			for c := 0; c < 3; c++ {
+				wg.Add(1)
+				go func() {
+					defer wg.Done()
+					for k := 0; k < 8; k++ {
+						d2.RefreshRoots(ctx)
+					}
+				}()
+			}
 			// (2) one policy data object: submissions x weight changes
 			groups, err := ctpolicy.ChromeCTPolicy{}.LogsByGroup(cert, list(2))
 			if err != nil {
@@ -151,7 +200,15 @@ func TestRacePass(t *testing.T) {
 					}
 				}()
 			}
-			wg.Wait()
+			done := make(chan struct{})
+			go func() { wg.Wait(); close(done) }()
+			select {
+			case <-done:
+			case <-time.After(4 * time.Minute):
+				// every operation above takes milliseconds and every submission has a deadline of at most a second
+				fmt.Printf("RACE-PASS STUCK after %d runs: submissions / refreshes of the free-running pass have not returned for 4 minutes (a deadlock: deadlines cannot free a goroutine that waits for a lock)\n", runs)
+				os.Exit(7)
+			}
 			cancel()
 			time.Sleep(20 * time.Millisecond)
 		}()
